@@ -129,7 +129,15 @@ Definition c18_oracle_gen (seed_only : bool) (c : trncase) : bool :=
 Definition P18 : str := [99;49;56;95].
 Definition c18_oracle (c : trncase) : bool := c18_oracle_gen false c && flags_ok P18 c.
 (** known finding K6: the only failure is a 0,0,0 user row whose tuple coincides with another row's but whose id differs *)
-Definition c18_known (c : trncase) : bool := negb (c18_oracle_gen false c) && c18_oracle_gen true c && flags_ok P18 c.
+(** ... and, as the listing of K6 says, the connection costs of the two ids are identical: the harness compares the
+    connection row and column (and, for an equal surface, the word cost) of every 0,0,0 user row of the reloaded model with
+    those of the seed word carrying the same features (flag c14_reload_user_like_seed); a fresh id with other costs is not
+    in the class *)
+Definition USER_LIKE_SEED : str := [99;49;52;95;114;101;108;111;97;100;95;117;115;101;114;95;108;105;107;101;95;115;101;101;100].
+Definition user_like_seed (c : trncase) : bool :=
+  forallb (fun f => negb (str_eqb (fst f) USER_LIKE_SEED) || (snd f =? 1)) (tn_flags c).
+Definition c18_known (c : trncase) : bool :=
+  negb (c18_oracle_gen false c) && c18_oracle_gen true c && flags_ok P18 c && user_like_seed c.
 
 Definition c18_nontrivial (c : trncase) : bool :=
   existsb (fun v : wview => let '(words, left_rows, _) := v in
